@@ -44,7 +44,8 @@ def read_all_events(inst, data, encoding, bc, blocked, limit=100000, style=0, pa
     first record and resumed with a second for loop; 3: one for loop"""
     fh = open(path, 'rb') if path else None          # a real file on disk instead of io.BytesIO
     try:
-        return _read_all(inst, fh or io.BytesIO(data), encoding, bc, blocked, limit, style)
+        with drv.Env('ipmrd', len(data), encoding, blocked, style, data[-3:]):
+            return _read_all(inst, fh or io.BytesIO(data), encoding, bc, blocked, limit, style)
     finally:
         if fh:
             fh.close()
@@ -97,6 +98,11 @@ def _read_all(inst, fobj, encoding, bc, blocked, limit, style):
 
 
 def write_file(msgs, encoding, bc, blocked, fins=('close',)):
+    with drv.Env('ipmwr', len(msgs), encoding, blocked, sorted(msgs[0])[:6] if msgs else 0):
+        return _write_file(msgs, encoding, bc, blocked, fins)
+
+
+def _write_file(msgs, encoding, bc, blocked, fins):
     f = io.BytesIO()
     w = mciipm.IpmWriter(f, encoding=encoding, iso_config=bc, blocked=blocked)
     for m in msgs:
